@@ -90,6 +90,8 @@ pub struct Gen {
     /// the multi-step "move a shell's weak pointer into a black holder mid-mark" script:
     /// (stage, arena, b, a, t)
     shell_script: Option<(u8, usize, u32, u32, u32)>,
+    /// the "weak shells" soak variant: stage (0 = not chosen yet, 1 = declined, 2.. = running)
+    weak_soak: u8,
     /// decimal (non-dyadic) pacing factors, incl. `Pacing::DEFAULT` and `STOP_THE_WORLD`: the
     /// model's exact rationals then differ from f64 by rounding, compared with a tolerance (`odt`)
     pub decimal: bool,
@@ -114,7 +116,7 @@ impl Gen {
     pub fn new(seed: u64, profile: Profile, max_ops: usize) -> Gen {
         let mut rng = Rng(seed);
         let narenas = if profile == Profile::Multi { 2 + rng.below(2) } else { 1 };
-        Gen { rng, profile, max_ops, emitted: 0, queue: VecDeque::new(), cb_stack: vec![], narenas, finishing: 0, done: false, want_reclaim: false, soak_prev: None, soak_pacing: None, shell_script: None, decimal: false }
+        Gen { rng, profile, max_ops, emitted: 0, queue: VecDeque::new(), cb_stack: vec![], narenas, finishing: 0, done: false, want_reclaim: false, soak_prev: None, soak_pacing: None, shell_script: None, weak_soak: 0, decimal: false }
     }
 
     fn pacing(&mut self) -> PacingSpec {
@@ -568,7 +570,69 @@ impl Gen {
     /// One round of the soak workload: a holder that references a fresh object weakly and then
     /// strongly (in trace order: slot 0 weak, slot 1 strong), chained to the previous holder and
     /// hung from the root; then one debt-driven call.
+    /// Soak variant for the weak path of the pacing bound: many objects that are alive at wake-up
+    /// and reachable only through `GcWeak` (their strong chain is cut while asleep), under a
+    /// pacing with a small rho in which `free` is much larger than `drop` — so that crediting the
+    /// weak path (marked + dropped + remembered) with the wrong factor breaks the rho-bound.
+    fn weak_soak_round(&mut self, w: &World, ai: usize) -> bool {
+        match self.weak_soak {
+            2 => {
+                // rho = 7/64: mark+trace+keep = 5/64, drop+free = 7/64, mark+drop+keep = 4/64
+                let p = PacingSpec { sleep: dy(1, 4), min_sleep: 4, mark: dy(2, 6), trace: dy(1, 6), keep: dy(2, 6), drop: dy(0, 0), free: dy(7, 6) };
+                self.soak_pacing = Some(p);
+                self.push(ai, Op::Pacing(p));
+                // holders (strong chain from root slot 0) hold only weak pointers to the targets;
+                // the targets form a strong chain of their own from root slot 1
+                let n0 = w.arenas[ai].shadow.objs.len() as u32;
+                let pairs = 40 + self.rng.below(12) as u32;
+                self.push(ai, Op::Enter(Cb::MutateRoot));
+                let mut id = n0;
+                let mut prev_t: Option<u32> = None;
+                let mut prev_h: Option<u32> = None;
+                for _ in 0..pairs {
+                    let (ta, tb, h) = (id, id + 1, id + 2);
+                    self.push(ai, Op::Alloc { leaf: false, slots: vec![prev_t.map(SP::S), None, None] });
+                    self.push(ai, Op::Alloc { leaf: false, slots: vec![Some(SP::S(ta)), None, None] });
+                    self.push(ai, Op::Downgrade(ta));
+                    self.push(ai, Op::Downgrade(tb));
+                    self.push(ai, Op::Alloc { leaf: false, slots: vec![prev_h.map(SP::S), Some(SP::W(ta)), Some(SP::W(tb))] });
+                    prev_t = Some(tb);
+                    prev_h = Some(h);
+                    id += 3;
+                }
+                self.push(ai, Op::RootStore { i: 0, v: prev_h.map(SP::S) });
+                self.push(ai, Op::RootStore { i: 1, v: prev_t.map(SP::S) });
+                self.push(ai, Op::Leave { panic: false });
+                self.cb_stack.clear();
+                // a first full cycle: everything survives, the wake-up threshold is set
+                self.push(ai, Op::Collect { method: Method::FinishCycle, cont: Cont::Drop, fault: None });
+                // cut the targets' strong chain while asleep: they stay reachable weakly only
+                self.push(ai, Op::Enter(Cb::MutateRoot));
+                self.push(ai, Op::RootStore { i: 1, v: None });
+                self.push(ai, Op::Leave { panic: false });
+                self.weak_soak = 3;
+                true
+            }
+            3 => {
+                // one garbage allocation, then a cycle_debt step: wakes in small debt, then runs on
+                self.push(ai, Op::Enter(Cb::Mutate));
+                self.push(ai, Op::Alloc { leaf: true, slots: vec![] });
+                self.push(ai, Op::Leave { panic: false });
+                self.cb_stack.clear();
+                self.push(ai, Op::Collect { method: Method::CycleDebt, cont: Cont::Drop, fault: None });
+                true
+            }
+            _ => false,
+        }
+    }
+
     fn soak_round(&mut self, w: &World, ai: usize) {
+        if self.weak_soak == 0 {
+            self.weak_soak = if self.soak_pacing.is_none() && self.rng.chance(1, 3) { 2 } else { 1 };
+        }
+        if self.weak_soak >= 2 && self.weak_soak_round(w, ai) {
+            return;
+        }
         if self.soak_pacing.is_none() {
             let fams = [
                 // (mark, trace, keep, drop, free) in sixteenths; rho = 15/16
